@@ -102,8 +102,7 @@ def check(run):
     run.coverage["field_shape_histogram"] = dict(sorted(shapes.items(), key=lambda kv: -kv[1])[:40])
     run.nontrivial = {str(x) for x in run.nontrivial}
     report_diffs(run, diffs, "coq/Codec.v (dec / enc for an arbitrary layout)", "the code #[derive(Zvt)] generated for a random struct", "derive_gen")
-    if any(not v.get("no_failing_input_found") for v in run.violations):
-        run.violations = [v for v in run.violations if not v.get("no_failing_input_found")]
+    vlib.prefer_concrete(run)
     return vlib.finish(run, trusted_base=TB,
                        assumptions=["macro hygiene (fields named like macro-internal variables) is outside the attribute grammar (observation O3)",
                                     "well-formed = DESIGN 5.2 as implemented by the generator; programs outside it are only compared model vs implementation"])
